@@ -203,5 +203,9 @@ func (p *contractPayment) OpSettle(account store.Account, paymentAmount *big.Int
 	if err != nil {
 		return "", err
 	}
+	// The deposit we have cached is what was just paid out. Don't wait for the
+	// Balance event of the mined transaction to forget it, or a second
+	// withdraw in the meantime would settle the same deposit again.
+	p.balanceCache.Set(account, new(big.Int).Set(newBalance))
 	return txn.Hash().Hex(), nil
 }
